@@ -50,16 +50,16 @@ def kernels(ctx):
     # medium kernels: untimed search takes seconds, a 1 s timeout cuts it with blocks already delivered
     cands = []
     for g in range(ctx.n(10, 30)):
-        n = rng.choice([50, 52, 56, 60])
+        n = rng.choice([50, 52])
         seed = rng.randrange(10 ** 9)
-        dbl = rng.choice([13, 14, 15, 16, 17])
+        dbl = rng.choice([8, 9, 10, 11])
         text = lcd_par.gen_chain_x86(_random.Random(seed), n, dbl)
         cands.append(("medium-chain-n%d-d%d-s%d" % (n, dbl, seed), {"isa": "x86", "arch": "zen2", "text": text}))
     counts = c16.run_batches(ctx, [[{"op": "count", "spec": s, "cap": 3 * 10 ** 6}] for _, s in cands], timeout=120, jobs=10)
     med = []
     for (name, spec), res in zip(cands, counts):
-        c = res[0].get("count")
-        if c and 40000 <= c <= 250000:
+        c, w = res[0].get("count"), res[0].get("work")
+        if c and 60000 <= w <= 130000:       # sequential search of a few seconds
             med.append((c, name, spec))
     med.sort()
     for c, name, spec in med[:ctx.n(1, 3)]:
@@ -213,11 +213,15 @@ def campaign(ctx, ks):
         if not hard:
             plan.append((name, {"spec": spec, "timeout": -1, "threshold": 10 ** 6, "role": "full-seq"}))
             plan.append((name, {"spec": spec, "timeout": -1, "role": "untimed"}))
-        touts = [0, 1, 2] if hard else ([0, 1, gen] if medium else [0, 1, 2, gen])
+        touts = [0, 1, 2] if hard else ([1] if medium else [0, 1, 2, gen])
         if ctx.tier == "quick" and name == "fib60":
             touts = [1]
         for T in touts:
             plan.append((name, {"spec": spec, "timeout": T, "role": "timed"}))
+        if medium:   # two workers: the search takes about half the sequential time, a 1 s timeout strikes in the middle
+            for T in [0, 1, gen]:
+                plan.append((name, {"spec": spec, "timeout": T, "W": 2, "role": "timed"}))
+            plan.append((name, {"spec": spec, "timeout": 1, "W": 1, "role": "timed"}))
         if not hard and not medium:
             plan.append((name, {"spec": spec, "timeout": 1, "W": 3, "role": "timed"}))
             plan.append((name, {"spec": spec, "timeout": 2, "W": len(spec["text"].strip().split("\n")) + 3, "role": "timed"}))
@@ -253,17 +257,17 @@ def campaign(ctx, ks):
         if r["parallel"]:
             traces.append((name, job, coq_trace_case(r, -1 if job["timeout"] == -1 else int(job["timeout"] * 10 ** 6))))
         # (a) post on the delivered list
-        if r.get("lat_exact") and r.get("n_paths", 0) <= ctx.n(2500, 8000) and (r["timed_out"] or job["timeout"] == -1):
+        if r.get("lat_exact") and r.get("n_paths", 0) <= 2500 and (r["timed_out"] or job["timeout"] == -1):
             body = lcd_par.COQ_PRELUDE
             body += "Definition ps : list path := %s.\n" % lcd_par.coq_paths(r["paths"])
             body += "Definition expected : list entry := %s.\n" % lcd_par.coq_expected(r["lcd"])
             checks = ["agrees %d ps expected" % r["offset"]]
-            if name in fullpaths and fullpaths[name][2] and len(fullpaths[name][0]) <= ctx.n(2500, 8000):
+            if name in fullpaths and fullpaths[name][2] and len(fullpaths[name][0]) <= 8000:
                 body += "Definition allp : list path := %s.\n" % lcd_par.coq_paths(fullpaths[name][0])
                 body += "Definition fulld : list entry := %s.\n" % lcd_par.coq_expected(full[name])
                 # hypothesis and conclusion of partial_sound, decided on the real data
                 checks.append("key_injb %d allp" % r["offset"])
-                checks.append("forallb (fun p => existsb (fun q => eqb_of cmp_lp p q) allp) ps")
+                checks.append("(let da := map snd (dedup %d [] allp) in forallb (fun p => existsb (eqb_of cmp_lp p) da) (map snd (dedup %d [] ps)))" % (r["offset"], r["offset"]))
                 checks.append("forallb (fun e => existsb (entry_eqb e) fulld) expected")
             body += 'Definition show := String.concat "" (map (fun b : bool => if b then "1" else "0") [%s]).\n' % "; ".join(checks)
             body += "Eval vm_compute in show.\n"
@@ -315,8 +319,27 @@ def edges(ctx, ks, full):
     sp = ks[name]
     jobs = [{"spec": sp, "timeout": 0, "shim": {"first_time_sleep": 1.5}, "role": "timed"},
             {"spec": sp, "timeout": 1, "shim": {"first_sleep_extra": 1.5}, "role": "timed"}]
-    out = c16.run_batches(ctx, [[dict(j, want_paths=True, report=True)] for j in jobs], timeout=120, jobs=2)
+    # (c) no simulated descheduling: one worker whose hook delays add up to ~0.88 s finishes between the last poll
+    #     inside a 1 s deadline (~0.8 s) and the first one beyond it (~1.0 s)
+    hook = "RRZE_HPC_OSACA_VERIF_DELAY" in open(os.path.join(vlib.REPO, "osaca/semantics/kernel_dg.py")).read()
+    if hook:
+        nlines = len(sp["text"].strip().split("\n"))
+        for seed in range(1, 2000):
+            tot = sum(0.03 * _random.Random("%s/%s" % (seed, ln)).random() for ln in range(1, nlines + 1))
+            if 0.85 <= tot <= 0.88:
+                jobs.append({"spec": sp, "timeout": 1, "W": 1, "delay": seed, "role": "timed"})
+                break
+    out = c16.run_batches(ctx, [[dict(j, want_paths=True, report=True)] for j in jobs], timeout=120, jobs=1)
     for j, r in zip(jobs, [o[0] for o in out]):
+        if not j.get("shim"):
+            n0 = len(ctx.violations) + sum(v["count"] for v in ctx.violations)
+            check_run(ctx, name, sp, j, r, full.get(name), None)
+            kills = [e for e in r.get("events", []) if e["ev"] == "kill"]
+            ctx.coverage["flag_without_cut_natural"] = {"delay_seed": j["delay"], "timed_out": r.get("timed_out"), "kills": len(kills),
+                                                        "complete": r.get("lcd") == full.get(name), "wall": r.get("wall")}
+            ctx.log("natural window run (hook seed %s, 1 worker, timeout 1): timed_out=%s kills=%d complete=%s wall=%.2f"
+                    % (j["delay"], r.get("timed_out"), len(kills), r.get("lcd") == full.get(name), r.get("wall", -1)))
+            continue
         if not check_run(ctx, name, sp, j, r, full.get(name), None):
             continue
         kills = [e for e in r["events"] if e["ev"] == "kill"]
@@ -330,11 +353,11 @@ def edges(ctx, ks, full):
 
 
 # ------------------------------------------------------------------ CLI: the warning follows the flag
-def cli(ctx, ks):
+def cli(ctx, ks, cases=None):
     c16.setup_home_data(ctx)
     d = os.path.join(ctx.scratch, "cli")
     os.makedirs(d, exist_ok=True)
-    cases = [("long_LCD", 1, True), ("gs+pad52", 10, False), ("gs+pad52", -1, False)]
+    cases = cases or [("long_LCD", 1, True), ("gs+pad52", 10, False), ("gs+pad52", -1, False)]
     for name, T, expect in cases:
         path = os.path.join(d, name.replace("+", "_") + ".s")
         with open(path, "w") as f:
@@ -386,12 +409,12 @@ def replay(ctx, obj):
             ctx.violation(obj["key"], obj["what"], r)
         return
     if r.get("kind") == "cli":
-        cli(ctx, {r["name"]: r["spec"], "long_LCD": r["spec"], "gs+pad52": r["spec"]})
+        cli(ctx, {r["name"]: r["spec"]}, [(r["name"], r["timeout"], r["expect_warning"])])
         return
     spec, job = r["spec"], dict(r["job"])
     full = None
     jobs = [[dict(job, spec=spec, want_paths=True, report=True)]]
-    ref = c16.run_batches(ctx, [[{"spec": spec, "timeout": -1, "threshold": 10 ** 6}]], timeout=200, jobs=1)[0][0]
+    ref = c16.run_batches(ctx, [[{"spec": spec, "timeout": -1, "threshold": 10 ** 6, "want_paths": False}]], timeout=40, jobs=1)[0][0]
     tp = None
     if "error" not in ref:
         full, tp = ref["lcd"], (ref.get("tp"), ref.get("cp"))
